@@ -91,6 +91,8 @@ def gen_level(rng, engine: str, bounds, lsc: dict | None = None, stack=None, max
         if engine in ("sea", "sea_cx", "ga") and rng.random() < 0.06:
             lv["p_mutation"] = 0.0  # legal: crossover / selection only
         lv["k_elites"] = rng.randint(1, 3)
+        if engine in SEA_FAMILY and rng.random() < 0.05:
+            lv["k_elites"] = 0  # legal: no elitism (C12's elitism clause does not apply then)
         if engine in SEA_FAMILY and rng.random() < 0.08:
             lv["k_elites"] = lv["pop"] + rng.choice([0, 0, 1])  # (mu + mu) plus-selection: every parent is an elite
         if engine in ("sea_cx", "ga"):
@@ -102,11 +104,11 @@ def gen_level(rng, engine: str, bounds, lsc: dict | None = None, stack=None, max
             lv["election_group_size"] = rng.randint(max(2, lv["k_elites"]), min(lv["pop"], 8))
             lv["k_elites"] = min(lv["k_elites"], lv["election_group_size"])
     if engine in ("de", "de_dither"):
-        lv["scaling"] = rng.choice([0.5, 0.8, 1.5])
-        lv["crossover"] = rng.choice([0.9, 0.5, 1.0, 0.1])
+        lv["scaling"] = rng.choice([0.5, 0.8, 1.5, 0.1])
+        lv["crossover"] = rng.choice([0.9, 0.5, 1.0, 0.1, 0.0])
     if engine == "shade":
         lv["pop"] = max(lv["pop"], 5)
-        lv["memory"] = rng.randint(2, 8)
+        lv["memory"] = rng.choice([1, 2, 3, 5, 8])
     if engine in ("lhs", "sobol"):
         lv["pop"] = rng.choice([4, 8, 16]) if engine == "sobol" else rng.randint(4, max_pop)
     if engine in CMA_ENGINES:
@@ -181,9 +183,9 @@ def gen_sprout(rng, bounds, n_levels: int, kind: str | None = None, level_limit=
 def gen_gsc(rng, kind: str | None = None, kinds=None) -> dict:
     kind = kind or rng.choice(kinds or ["melimit", "melimit", "evals", "fevals"])
     if kind == "melimit":
-        return {"k": "melimit", "n": rng.randint(2, 8)}
+        return {"k": "melimit", "n": rng.choice([1, 2, 3, 4, 5, 6, 7, 8])}
     if kind == "evals":
-        return {"k": "evals", "n": rng.randint(40, 1500)}
+        return {"k": "evals", "n": rng.choice([1, rng.randint(40, 1500), rng.randint(40, 1500), rng.randint(40, 400)])}
     if kind == "fevals":
         return {"k": "fevals", "n": rng.randint(40, 1500), "w": rng.choice(["equal", "root", None, "list"])}
     if kind == "precision":
